@@ -1,0 +1,62 @@
+//go:build verif
+
+// Contracts for package analysis (read by /verif/gocv; comment-only effect with the verif tag off).
+
+package analysis
+
+// ---------------------------------------------------------------------------
+// C19: rune/term helpers used by the token filters never index out of range
+// ---------------------------------------------------------------------------
+
+// unicode/utf8 and bytes (assumed). A rune is valid when it is a Unicode scalar value.
+//@ spec runeValid(r rune) bool = 0 <= r && r <= 1114111 && !(55296 <= r && r <= 57343)
+//@ assume func utf8.RuneLen(r)
+//@   pure
+//@   ensures implies(runeValid(r), 1 <= result && result <= 4) && implies(!runeValid(r), result == -1)
+// EncodeRune writes RuneLen(r) bytes (3, the encoding of U+FFFD, for an invalid rune) and panics
+// when p is shorter than that.
+//@ assume func utf8.EncodeRune(p, r)
+//@   requires len(p) >= ite(runeValid(r), utf8.RuneLen(r), 3)
+//@   modifies p[*]
+//@   ensures result == ite(runeValid(r), utf8.RuneLen(r), 3)
+//@ assume func utf8.RuneCount(p)
+//@   pure
+//@   ensures 0 <= result && result <= len(p)
+// bytes.Runes decodes every rune (invalid bytes become U+FFFD, a valid rune)
+//@ assume func bytes.Runes(s)
+//@   ensures fresh(result) && len(result) == utf8.RuneCount(s) && forall(k, 0, len(result), runeValid(result[k]))
+
+//@ func DeleteRune
+//@   props C19
+//@   mode int
+//@   requires pos >= 0
+//@   modifies in[*]
+//@   ensures implies(pos >= len(in), result == in) && implies(pos < len(in), len(result) == len(in) - 1 && base(result) == base(in))
+
+//@ func InsertRune
+//@   props C19
+//@   mode int
+//@   requires 0 <= pos && pos <= len(in)
+//@   ensures fresh(result) && len(result) == len(in) + 1 && result[pos] == r
+
+// The term of a sequence of valid runes: at most 4 bytes per rune, in buf when it is large enough,
+// otherwise in a fresh buffer that is large enough for all of them.
+//@ func BuildTermFromRunesOptimistic
+//@   props C19
+//@   mode int
+//@   requires forall(k, 0, len(runes), runeValid(runes[k]))
+//@   modifies buf[*]
+//@   ensures len(result) <= 4*len(runes) && (base(result) == base(buf) || fresh(result))
+//@   loop 0: invariant 0 <= used && used <= 4*iter && used <= len(rv) && (rv == old(buf) || (fresh(rv) && len(rv) == 4*len(runes)))
+
+//@ func BuildTermFromRunes
+//@   props C19
+//@   mode int
+//@   requires forall(k, 0, len(runes), runeValid(runes[k]))
+//@   ensures len(result) <= 4*len(runes) && fresh(result)
+
+//@ func TruncateRunes
+//@   props C19
+//@   mode int
+//@   requires 0 <= num && num <= utf8.RuneCount(input)
+//@   ensures fresh(result)
